@@ -715,12 +715,26 @@ def run_batch_scenario(idx, sc, texts):
         if sc.get("fd_limit"):
             # more files than the process may hold open at once
             e = dict(os.environ); e.pop("PASFMT_VERIF_TRACE", None); e.update(env)
-            r = subprocess.run(["bash", "-c", f"ulimit -n {int(sc['fd_limit'])}; exec \"$0\" \"$@\"", PASFMT] + cfg_args + mode_args + [d], cwd=root, stdout=subprocess.PIPE, stderr=subprocess.PIPE, env=e, timeout=300)
+            r = subprocess.run(["bash", "-c", f"ulimit -n {int(sc['fd_limit'])}; exec \"$0\" \"$@\"", PASFMT] + cfg_args + mode_args + pre_args + [d] + extra_args, cwd=root, stdout=subprocess.PIPE, stderr=subprocess.PIPE, env=e, timeout=300)
             rc, out, err = r.returncode, r.stdout, r.stderr
         else:
             rc, out, err = run_bin(cfg_args + mode_args + pre_args + (paths if sc.get("explicit", True) else [d]) + extra_args, root, env=env)
         what = f"n={n} threads={sc['threads']} failing={sorted(fails)}" + (" mode=stdout" if sc.get("mode") == "stdout" else "") + (f" cfg={sc['cfg']}" if cfg_args else "") \
             + (f" --log-level {sc['loglevel']}" if sc.get("loglevel") else "") + (f" open-file limit {sc['fd_limit']}" if sc.get("fd_limit") else "")
+        if -64 <= rc < 0:
+            # the process was killed by a signal (an abort): when one of the files does the same to a process that formats it
+            # ALONE through the same route, the batch is no different from the file alone as far as that file goes - the other
+            # files were not formatted, which is known finding F23 seen through C18 (identified by that file)
+            for nm, body in files.items():
+                if body is None or len(body) < 100000:
+                    continue
+                solo = os.path.join(root, "solo.pas")
+                with open(solo, "wb") as fh:
+                    fh.write(body)
+                r1 = run_bin(cfg_args + ["--mode", "stdout", solo], root, env={"RAYON_NUM_THREADS": str(sc["threads"])})
+                if -64 <= r1[0] < 0:
+                    problems.append({"clause": "exit_status", "detail": f"the batch was killed by signal {-rc}; {nm} ({len(body)} bytes) kills a process that formats it alone as well ({what}); stderr {' '.join(err[-200:].decode(errors='replace').split())} [site: a file that aborts the process when formatted alone takes the batch with it]"})
+                    return problems, False, []
         if (rc != 0) != bool(fails):
             problems.append({"clause": "exit_status", "detail": f"exit status {rc} but the failing files are {sorted(fails)} ({what}); stderr {err[-300:].decode(errors='replace')}"})
         if sc.get("mode") == "stdout":
